@@ -8,7 +8,7 @@ COMMON_TB = [
     "tools/driver.py (case files, result parsing, classification)",
 ]
 
-HOOK_COMMITS = ["4d6c2a5", "be1b687", "e88a172"]
+HOOK_COMMITS = ["4d6c2a5", "be1b687", "e88a172", "8d87278"]
 
 PROPS = {
     "C09": {
@@ -203,6 +203,30 @@ PROPS = {
                                      "RSA PKCS#1 v1.5, serde_json, uuid generation, SystemTime: oracles recorded per case / universally quantified in the theorems",
                                      "monitor on the implementation's trace: observable events are the implementation's, unobservable ones (frame consumption, fresh values) are aligned from the model's run"],
         "assumptions": ["frames delivered atomically (segmentation is C08's subject)", "event times distinct from tick instants and adapter completions"],
+    },
+    "C12": {
+        "props_file": "Props/C12.v",
+        "run_files": ["Run/CaseC12.v"],
+        "imports": ["Lib.Bytes", "Run.CaseC12"],
+        "case_type": "c12case",
+        "checkers": {"REQ": "check_c12"},
+        "harness": [{"bin": "mojang", "crate": "harness-net"}],
+        "shard": 50,
+        "quick_scale": 1, "thorough_scale": 10, "search_factor": 4,
+        "ties": ["Adapters/MojangUrl.v: hand model of Url::parse_with_params + form_urlencoded::byte_serialize as used by "
+                 "passage-adapters/http/src/mojang_adapter.rs, tied byte-exactly to the request line received by a loopback "
+                 "mock (mojang binary, family REQ; needs the cfg(passage_verif) hook PASSAGE_VERIF_SESSION_BASE)"],
+        "allowed_axioms": [],
+        "rule": "mojang binary: real MojangAdapter::authenticate against a plain-HTTP loopback mock; 63 fixed names (delimiters, "
+                "controls, CR/LF, non-ASCII, empty, 300 and 4000 bytes, injection look-alikes incl. the real hash) and 120*scale "
+                "seeded (server id, name, secret, key) tuples; every case is non-trivial (a real request is made and recorded); "
+                "monitor = target_ok on the recorded request target with the Spec-level hash; an empty target (no request) counts "
+                "as a correspondence failure",
+        "trusted_base": COMMON_TB + ["harness-net/ (loopback mock, request line capture)",
+                                     "Spec/FormUrl.v (urlencoded serialiser/parser transcribed from form_urlencoded 1.2.2 / percent-encoding 2.3.2; crate doc tests as Examples)",
+                                     "url 2.5.8 / reqwest 0.13 / hyper 1.8 emission of the request line (tied by every REQ case)",
+                                     "Spec/Sha1.v, Spec/SignedHex.v for the expected serverId value (C11)"],
+        "assumptions": ["the session server parses the query string as application/x-www-form-urlencoded"],
     },
 }
 
